@@ -1441,6 +1441,11 @@ class DirectoryTreeStructureSignatureTask : public Task {
       if (value.isMissingInput() || value.isSkippedCommand())
         return;
 
+      // The filtered listing of something which is not a directory is reported
+      // as a plain input, it has no children.
+      if (value.isExistingInput())
+        return;
+
       assert(value.isFilteredDirectoryContents() || value.isDirectoryContents());
       auto filenames = value.getDirectoryContents();
       for (size_t i = 0; i != filenames.size(); ++i) {
@@ -1490,7 +1495,7 @@ class DirectoryTreeStructureSignatureTask : public Task {
       // We need to merge mode information about the directory itself, in case
       // it changes type.
       auto value = BuildValue::fromData(directoryValue);
-      if (value.isDirectoryContents()) {
+      if (value.isDirectoryContents() || value.isExistingInput()) {
         code = hash_combine(code, value.getOutputInfo().mode);
       } else {
         code = hash_combine(
